@@ -36,10 +36,17 @@ CONSTANTS
    MaxHer,        \* <<h1, h2, ...>> heralds declared per object
    MaxAdds,       \* add calls per program
    MaxComp,       \* plain component calls (bs, ps, loss, bar, swap, u) per program
+   NPar,          \* number of Parameter objects (0: none); parameter p is referred to by the argument value 1000 + p
+   ParKinds,      \* <<kind of parameter 1, ...>>, kind \in {"phase", "refl", "loss"} (how the adapter turns a value id into a number)
+   ParInit,       \* <<initial value id of parameter 1, ...>>
+   ParVals,       \* value ids tried by SetPar (9 = a value that is invalid for the component)
+   DispArgs,      \* display option tuples tried: <<type, display_loss, show_values, label-length offset or 99 for None>>
+   DispMin,       \* display calls only after at least this many calls
+   ModeCap,       \* valid mode arguments tried are 0 .. min(nu, ModeCap) - 1
    RejLast        \* TRUE: a rejected call ends the program (a rejected call changes nothing, so nothing new follows it)
 
-VARIABLES circ, sem, prog, op
-vars == <<circ, sem, prog, op>>
+VARIABLES circ, sem, prog, op, pval
+vars == <<circ, sem, prog, op, pval>>
 Objs == 1..NObj
 
 \* ---- scenario templates ---------------------------------------------------
@@ -50,15 +57,20 @@ TemplateOps(n) == [i \in 1..n |-> OpPs(i, i)] \o [i \in 1..(n-1) |-> OpBs(i, i+1
 ParentOps(n) == <<OpPs(1, 3)>> \o [i \in 1..(n-1) |-> OpBs(i, i+1, 1, "Rx")]
 InitCircs ==
    IF Scenario = "single" THEN { [o \in Objs |-> IF o = 1 THEN New(n) ELSE NullC] : n \in NUs }
+   ELSE IF Scenario = "pair" THEN { [o \in Objs |-> IF o = 1 THEN New(PNu) ELSE IF o = 2 THEN New(2) ELSE NullC] }
    ELSE { [o \in Objs |-> IF o = 1 THEN [New(PNu) EXCEPT !.ops = ParentOps(PNu)]
                           ELSE IF o = 2 THEN [New(3) EXCEPT !.ops = TemplateOps(3)]
                           ELSE IF o = 3 THEN [New(2) EXCEPT !.ops = TemplateOps(2)]
                           ELSE NullC] }
 SemOrNone(c) == IF Numeric /\ c.nu >= 0 THEN Sem(c) ELSE <<>>
+\* with parameters the matrix is re-read from the op list with the CURRENT values (that is what "live" means);
+\* without parameters it is carried incrementally (inc)
+SemNew(c2, inc) == IF ~Numeric THEN <<>> ELSE IF NPar = 0 THEN inc ELSE SemOrErr(c2, pval)
 Init == /\ circ \in InitCircs
         /\ sem = [o \in Objs |-> SemOrNone(circ[o])]
         /\ prog = <<>>
         /\ op = "init"
+        /\ pval = ParInit
 
 Live(o) == circ[o].nu >= 0
 RejCount == Len(SelectSeq(prog, LAMBDA e : e[1] = "rej"))
@@ -82,31 +94,32 @@ Accept(t, name, args, c2, M2) ==
    /\ (name = "add" => NAdds < MaxAdds)
    /\ (name \in CompKinds => NComp < MaxComp)
    /\ circ' = [circ EXCEPT ![t] = c2]
-   /\ sem' = [sem EXCEPT ![t] = IF Numeric THEN M2 ELSE <<>>]
+   /\ sem' = [sem EXCEPT ![t] = SemNew(c2, M2)]
    /\ prog' = Append(prog, <<"ok", name, t>> \o args)
    /\ op' = name
+   /\ UNCHANGED pval
 Reject(t, name, args) ==
    /\ RejCount < MaxRej
    /\ (name \in CompKinds => NComp < MaxComp)
    /\ StageOk(name, t, args)
-   /\ UNCHANGED <<circ, sem>>
+   /\ UNCHANGED <<circ, sem, pval>>
    /\ prog' = Append(prog, <<"rej", name, t>> \o args)
    /\ op' = "rej"
-AppendOps(t, c2, newOps) == AppendAllSem(circ[t], newOps, sem[t], <<>>)
+AppendOps(t, c2, newOps) == AppendAllSem(circ[t], newOps, sem[t], pval)
 
 DoBs(t, m1, m2, rid, cv, lq) ==
-   IF BsValid(circ[t], m1, m2, rid, cv, lq)
+   IF BsValid(circ[t], m1, m2, rid, cv, lq, pval)
    THEN LET c2 == BsApply(circ[t], m1, m2, rid, cv, lq) IN
         Accept(t, "bs", <<m1, m2, rid, cv, lq>>, c2,
                AppendOps(t, c2, <<OpBs(m1 + 1, m2 + 1, rid, cv)>> \o LossTail(<<m1 + 1, m2 + 1>>, lq)))
    ELSE Reject(t, "bs", <<m1, m2, rid, cv, lq>>)
 DoPs(t, m, pid, lq) ==
-   IF PsValid(circ[t], m, pid, lq)
+   IF PsValid(circ[t], m, pid, lq, pval)
    THEN LET c2 == PsApply(circ[t], m, pid, lq) IN
         Accept(t, "ps", <<m, pid, lq>>, c2, AppendOps(t, c2, <<OpPs(m + 1, pid)>> \o LossTail(<<m + 1>>, lq)))
    ELSE Reject(t, "ps", <<m, pid, lq>>)
 DoLoss(t, m, q) ==
-   IF LossValid(circ[t], m, q)
+   IF LossValid(circ[t], m, q, pval)
    THEN LET c2 == LossApply(circ[t], m, q) IN Accept(t, "loss", <<m, q>>, c2, AppendOps(t, c2, <<OpLoss(m + 1, q)>>))
    ELSE Reject(t, "loss", <<m, q>>)
 DoBar(t, ms) ==
@@ -145,6 +158,28 @@ DoPlus(t, a, b) ==
 DoCopy(t, s) ==
    /\ ~Live(t) /\ Live(s)
    /\ Accept(t, "copy", <<s>>, circ[s], sem[s])
+DoCopyFrozen(t, s) ==
+   /\ ~Live(t) /\ Live(s)
+   /\ LET c2 == [circ[s] EXCEPT !.ops = FreezeOps(@, pval)] IN
+      /\ circ' = [circ EXCEPT ![t] = c2]
+      /\ sem' = [sem EXCEPT ![t] = IF Numeric THEN SemOrErr(c2, <<>>) ELSE <<>>]     \* evaluated WITHOUT any parameter: it has none
+      /\ prog' = Append(prog, <<"ok", "copyf", t, s>>)
+      /\ op' = "copyf" /\ UNCHANGED pval
+\* Parameter.set on parameter p (accepted; bounds are LwParams' business): every circuit that mentions p reports the new value
+DoSetPar(p, v) ==
+   /\ pval[p] # v
+   /\ pval' = [pval EXCEPT ![p] = v]
+   /\ UNCHANGED circ
+   /\ sem' = [o \in Objs |-> IF Numeric /\ Live(o) /\ p \in ParamsOf(circ[o].ops) THEN SemOrErr(circ[o], pval') ELSE sem[o]]
+   /\ prog' = Append(prog, <<"ok", "setpar", 0, p, v>>)
+   /\ op' = "setpar"
+\* display: read-only; accepted iff the type is known and the label list (if any) has one entry per user-visible mode
+DisplayOk(c, a) == a[1] \in {"svg", "mpl"} /\ (a[4] = 99 \/ a[4] = 0)
+DoDisplay(t, a) ==
+   /\ Len(prog) >= DispMin
+   /\ UNCHANGED <<circ, sem, pval>>
+   /\ prog' = Append(prog, <<IF DisplayOk(circ[t], a) THEN "ok" ELSE "rej", "display", t>> \o a)
+   /\ op' = "display"
 \* the in-place rewrites: the abstract circuit keeps a representative op list; the contract is that the
 \* transformation, heralds and input size do not change (structure postconditions are judged on the
 \* recorded structure, see LwCircuitTrace)
@@ -167,7 +202,7 @@ DoNonAdj(t)   == Accept(t, "nonadj", <<>>, circ[t], sem[t])
 
 \* ---- argument universes ---------------------------------------------------
 \* every combination of valid values, plus calls with exactly ONE invalid argument (others canonical)
-GM(nu) == 0..(nu - 1)
+GM(nu) == 0..(Min({nu, ModeCap}) - 1)
 BM(nu) == {IF m = 99 THEN nu ELSE m : m \in BadModes}
 BadR == IF BadVals THEN {-1, 3} ELSE {}
 BadC == IF BadVals THEN {"Q"} ELSE {}
@@ -188,12 +223,8 @@ BarU(nu) == { <<>> } \cup { <<m>> : m \in 0..(nu - 1) } \cup { <<0, nu - 1>> } \
 HeraldArgs(nu) == (HeraldNs \X GM(nu) \X GM(nu)) \cup ({0} \X BM(nu) \X {0}) \cup ({0} \X {0} \X BM(nu))
 AddModes(nu) == GM(nu) \cup BM(nu)
 
-Next ==
-   /\ Len(prog) < MaxLen
-   /\ (RejLast => op # "rej")
-   /\ \E t \in Targets :
-      /\ Live(t)
-      /\ LET nu == circ[t].nu IN
+Calls(t) ==
+   LET nu == circ[t].nu IN
          \/ "bs" \in Kinds /\ \E a \in BsArgs(nu) : DoBs(t, a[1], a[2], a[3], a[4], a[5])
          \/ "ps" \in Kinds /\ \E a \in PsArgs(nu) : DoPs(t, a[1], a[2], a[3])
          \/ "loss" \in Kinds /\ \E a \in LossArgs(nu) : DoLoss(t, a[1], a[2])
@@ -208,20 +239,30 @@ Next ==
          \/ "nonadj" \in Kinds /\ DoNonAdj(t)
          \/ "probeall" \in Kinds /\ DoProbeAll(t)
          \/ "edit" \in Kinds /\ DoEdit(t)
+         \/ "copyf" \in Kinds /\ \E n \in Objs : DoCopyFrozen(n, t)
+         \/ "setpar" \in Kinds /\ t = Min(Targets) /\ \E p \in 1..NPar, v \in ParVals : DoSetPar(p, v)
          \/ "plus" \in Kinds /\ \E n \in Objs, b \in Objs : DoPlus(n, t, b)
          \/ "copy" \in Kinds /\ \E n \in Objs : DoCopy(n, t)
+Next ==
+   /\ Len(prog) < MaxLen
+   /\ (RejLast => op \notin {"rej", "display"})
+   /\ \E t \in Targets :
+      /\ Live(t)
+      \* when display is in scope the last slot of every program is reserved for it
+      /\ \/ "display" \in Kinds /\ \E a \in DispArgs : DoDisplay(t, a)
+         \/ ("display" \in Kinds => Len(prog) < MaxLen - 1) /\ Calls(t)
 Spec == Init /\ [][Next]_vars
 
 \* ---- properties -----------------------------------------------------------
 \* C01 / C02: the full matrix is unitary, has one extra mode per loss element, U is its leading block
-UnitaryInv == Numeric => \A o \in Objs : Live(o) => IsUnitary(sem[o])
-DimInv == Numeric => \A o \in Objs : Live(o) => Len(sem[o]) = circ[o].nu + Len(circ[o].anc) + NLoss(circ[o].ops)
+UnitaryInv == Numeric => \A o \in Objs : (Live(o) /\ sem[o] # <<>>) => IsUnitary(sem[o])
+DimInv == Numeric => \A o \in Objs : (Live(o) /\ sem[o] # <<>>) => Len(sem[o]) = circ[o].nu + Len(circ[o].anc) + NLoss(circ[o].ops)
 \* the compositional (per-call) semantics is the flattened ordered product of the components
-SemAgrees == Numeric => \A o \in Objs : Live(o) => sem[o] = Sem(circ[o])
+SemAgrees == Numeric => \A o \in Objs : Live(o) => sem[o] = SemOrErr(circ[o], pval)
 \* the same three clauses as action properties on the object the step touched (cheaper in multi-object scopes)
 TgtP == prog'[Len(prog')][3]
-UnitaryStep == [][Numeric => IsUnitary(sem'[TgtP]) /\ Len(sem'[TgtP]) = DimL(circ'[TgtP])]_vars
-SemAgreesStep == [][Numeric => sem'[TgtP] = Sem(circ'[TgtP])]_vars
+UnitaryStep == [][(Numeric /\ TgtP > 0 /\ sem'[TgtP] # <<>>) => IsUnitary(sem'[TgtP]) /\ Len(sem'[TgtP]) = DimL(circ'[TgtP])]_vars
+SemAgreesStep == [][(Numeric /\ TgtP > 0) => sem'[TgtP] = SemOrErr(circ'[TgtP], pval')]_vars
 \* C02 (ii): every ancilla carries one herald number (same at input and output by construction), and the
 \* user numbering never involves ancillas: ops appended by a call mention no ancilla that existed before it
 AncillaPrivate ==
@@ -235,8 +276,15 @@ AncillaPrivate ==
 InputModesInv == \A o \in Objs : Live(o) => InputModes(circ[o]) >= 0 /\ Len(circ[o].hord) <= circ[o].nu
 \* C08: a call changes at most its target; a rejected call changes nothing
 TargetOf(e) == e[3]
-FrameProp == [][\A o \in Objs : (o # TargetOf(prog'[Len(prog')])) => (circ'[o] = circ[o] /\ sem'[o] = sem[o])]_vars
-RejectFrame == [][op' = "rej" => UNCHANGED <<circ, sem>>]_vars
+FrameProp == [][IF op' = "setpar"
+                THEN circ' = circ /\ \A o \in Objs : (Live(o) /\ prog'[Len(prog')][4] \notin ParamsOf(circ[o].ops)) => sem'[o] = sem[o]
+                ELSE \A o \in Objs : (o # TargetOf(prog'[Len(prog')])) => (circ'[o] = circ[o] /\ sem'[o] = sem[o])]_vars
+RejectFrame == [][op' \in {"rej", "display"} => UNCHANGED <<circ, sem, pval>>]_vars
+\* C10: a frozen copy mentions no parameter and keeps the values of the moment it was taken
+FrozenProp == [][op' = "copyf" => LET t == TargetOf(prog'[Len(prog')])  s == prog'[Len(prog')][4] IN
+                    ParamsOf(circ'[t].ops) = {} /\ (Numeric => sem'[t] = sem[s]) /\ circ'[s] = circ[s]]_vars
+\* C10: live parameters - after ANY step every circuit's matrix is the one for the current parameter values
+LiveParams == [][Numeric => \A o \in Objs : Live(o) => sem'[o] = SemOrErr(circ'[o], pval')]_vars
 \* C08: later edits of a sub-circuit do not change a parent it was added to (sem[p] is a value, not a reference)
 \* C09: rewrites preserve the transformation, heralds, input size
 RewriteProp == [][op' \in {"unpack", "compress", "nonadj"} =>
